@@ -202,15 +202,29 @@ boost::optional<ndsize_t> getSampledIndex(const double position, const double of
         return index;
     }
     double tmp;
+    // coordinate of a sample, computed like SampledDimension::positionAt does
+    auto pos_at = [offset, sampling_interval](double idx) { return idx * sampling_interval + offset; };
+    // (position - offset) / sampling_interval is rounded twice and can end up on the wrong side of an integer (6.3 / 0.1 is
+    // 63.000000000000007), so the candidate index is checked against the coordinates of its neighbours and moved by one if needed
     if (match == PositionMatch::Greater || match == PositionMatch::GreaterOrEqual) {
         tmp = ceil((position - offset) / sampling_interval);
         if (tmp < 0.0) {
             tmp = 0.0;
         }
+        if (tmp >= 1.0 && pos_at(tmp - 1.0) >= position) {
+            tmp -= 1.0;
+        } else if (pos_at(tmp) < position) {
+            tmp += 1.0;
+        }
         bool equals = fabs(tmp * sampling_interval + offset - position) <= numeric_limits<double>::epsilon();
         index = (match == PositionMatch::Greater && equals) ? static_cast<ndsize_t>(tmp + 1) : static_cast<ndsize_t>(tmp);
     } else if (match == PositionMatch::Less || match == PositionMatch::LessOrEqual) {
         tmp = floor((position - offset) / sampling_interval);
+        if (pos_at(tmp + 1.0) <= position) {
+            tmp += 1.0;
+        } else if (tmp >= 1.0 && pos_at(tmp) > position) {
+            tmp -= 1.0;
+        }
         bool equals = fabs(tmp * sampling_interval + offset - position) <= numeric_limits<double>::epsilon();
         if (match == PositionMatch::Less && equals) { 
             if (tmp >= 1) {
@@ -221,6 +235,13 @@ boost::optional<ndsize_t> getSampledIndex(const double position, const double of
         }
     } else {
         tmp = round((position - offset) / sampling_interval);
+        if (fabs(tmp * sampling_interval + offset - position) > numeric_limits<double>::epsilon()) {
+            if (tmp >= 1.0 && fabs(pos_at(tmp - 1.0) - position) <= numeric_limits<double>::epsilon()) {
+                tmp -= 1.0;
+            } else if (fabs(pos_at(tmp + 1.0) - position) <= numeric_limits<double>::epsilon()) {
+                tmp += 1.0;
+            }
+        }
         if (fabs(tmp * sampling_interval + offset - position) <= numeric_limits<double>::epsilon()) {
             index = static_cast<ndsize_t>(tmp);
         }
